@@ -1,0 +1,5 @@
+//go:build !verif
+
+package entry
+
+func verifYield(string) {}
